@@ -565,8 +565,33 @@ func runC03(c *Ctx) {
 		}
 	}
 
+	// ---- Spec verdicts: the reference typing rules (Lean `synth` with the documented rule set)
+	for i := range reqs {
+		if reals[i].parsed {
+			tree, _ := parser.Parse(cases[i].src)
+			reqs[i] = L(A("c03-ref"), envSxCache[cases[i].env.Name], nodeSx(tree.Node, false)).String()
+		}
+	}
+	refs, err := c.AskAll(reqs)
+	if err != nil {
+		c.R.Mismatch("driver", "c03-ref", err.Error(), "")
+		return
+	}
+
 	// ---- oracle on the real code
-	for _, cs := range cases {
+	for i, cs := range cases {
+		if !reals[i].parsed {
+			continue
+		}
+		refWell := strings.HasPrefix(refs[i], "(well")
+		if cs.fault == "" && cs.goal != nil && !refWell {
+			// the generator claims the expression is well typed, the reference rules disagree
+			c.R.Mismatch("c03/reference-vs-generator", cs.env.Name+" | "+cs.src, refs[i], "generated as well typed")
+		}
+		if cs.fault != "" && refWell {
+			c.R.Count("oracle:mutant-not-ill-typed-by-reference", 1)
+			continue
+		}
 		c03Oracle(c, cs)
 	}
 	for _, k := range []string{"check:accepted", "check:rejected", "oracle:static-runs", "oracle:mutants-rejected"} {
